@@ -166,7 +166,11 @@ func (d *diff) Set(elements ...Element) {
 	for _, e := range elements {
 		hash := xxhash.Sum64([]byte(e.Id))
 		el := &element{Element: e, hash: hash}
-		d.sl.Remove(el)
+		if d.sl.Remove(el) != nil {
+			// the id is already indexed: take it out of the range counters first,
+			// otherwise every update is counted as one more element
+			d.ranges.removeElement(hash)
+		}
 		d.sl.Set(el, nil)
 		d.ranges.addElement(hash)
 	}
